@@ -18,6 +18,7 @@ import (
 	"github.com/grafana/dskit/services"
 
 	"verifharness/internal/fakekv"
+	"verifharness/internal/model"
 	"verifharness/internal/vx"
 )
 
@@ -762,7 +763,7 @@ func TestOwnerSetsRapid(t *testing.T) {
 					}
 				}
 				healthy := func(in ring.InstanceDesc) bool {
-					return op.IsInstanceInStateHealthy(in.State) && now.Unix()-in.Timestamp <= 60
+					return model.StateHealthy(op, in.State) && now.Unix()-in.Timestamp <= 60
 				}
 				// oracle per partition
 				want := map[int32][]string{}
